@@ -21,3 +21,11 @@ pub assume_specification<T>[ core::mem::replace::<T> ](dest: &mut T, src: T) -> 
 // Result::or (std): the value if Ok, otherwise the alternative
 pub assume_specification<T, E, F>[ Result::<T, E>::or ](r: Result<T, E>, res: Result<T, F>) -> (o: Result<T, F>)
     ensures match r { Ok(t) => o == Ok::<T, F>(t), Err(_) => o == res };
+
+// `impl<T> From<T> for T` / `impl<T, U: From<T>> Into<U> for T` (std: "From<T> for T implies Into<T> for T, it is reflexive"):
+// converting a value into its own type returns it unchanged
+#[verifier::external_body]
+pub broadcast proof fn axiom_into_reflexive<T>(a: T, r: T)
+    requires #[trigger] call_ensures(<T as Into<T>>::into, (a,), r)
+    ensures r == a
+{}
